@@ -3632,12 +3632,22 @@ func (t *Terminal) printPreview() {
 	t.previewed.offset = t.previewer.offset
 }
 
-func (t *Terminal) printPreviewDelayed() {
-	if !t.hasPreviewWindow() || len(t.previewer.lines) > 0 && t.previewed.version == t.previewer.version {
+// printPreviewDelayed shows "Loading .." for the command of the given version
+// unless its output is on display already. t.previewer.version must keep
+// describing t.previewer.lines (the lines of an older command until the first
+// result of this one arrives), otherwise a repaint in between makes
+// printPreview take the new result for unchanged content.
+func (t *Terminal) printPreviewDelayed(version int64) {
+	if !t.hasPreviewWindow() || len(t.previewer.lines) > 0 && t.previewed.version == version {
 		return
 	}
 
 	t.previewer.scrollable = false
+	if t.previewed.wipe && t.previewed.version != version {
+		// An image of an older preview is on display
+		t.previewed.wipe = false
+		t.pwindow.Erase()
+	}
 	t.renderPreviewArea(true)
 
 	message := t.trimMessage("Loading ..", t.pwindow.Width())
@@ -4785,8 +4795,7 @@ func (t *Terminal) Loop() error {
 					case reqPreviewRefresh:
 						t.printPreview()
 					case reqPreviewDelayed:
-						t.previewer.version = value.(int64)
-						t.printPreviewDelayed()
+						t.printPreviewDelayed(value.(int64))
 					case reqPrintQuery:
 						exit(func() int {
 							t.printer(string(t.input))
